@@ -93,6 +93,26 @@ def custom_operator(builder):
     return Plain()
 
 
+def chain_operator(first, second, stateful):
+    """A hand-written operator chaining two workers that hands over only the HEAD nodes of its apply and train paths
+    (`left.extend(apply_head, train_head)`, the documented recipe): the tails are traced by the segment."""
+    from forml import flow
+
+    class Chain(flow.Operator):
+        def compose(self, scope):
+            left = scope.expand()
+            apply1, apply2 = flow.Worker(first, 1, 1), flow.Worker(second, 1, 1)
+            apply2[0].subscribe(apply1[0])
+            train1, train2 = apply1.fork(), apply2.fork()
+            train2[0].subscribe(train1[0])
+            if stateful:
+                apply1.fork().train(left.train.publisher, left.label.publisher)
+                apply2.fork().train(train1[0], left.label.publisher)
+            return left.extend(apply1, train1)
+
+    return Chain()
+
+
 def _head(segment):
     return segment[0]
 
@@ -112,6 +132,8 @@ def make(e, x=1, tmp=None):
         return getattr(wrap.Operator, op)(cls)(str(x))
     if op == 'custom':
         return custom_operator(cls.builder(str(x)))
+    if op == 'chain':
+        return chain_operator(cls.builder(str(10 * x + 1)), cls.builder(str(10 * x + 2)), e['sf'])
     if op in ('lmapper', 'lapply', 'ltrain'):
         label_cls = symbolic.Stateful if e['k'] == 1 else symbolic.Stateless
         combined = getattr(wrap.Operator.label(label_cls, label=str(10 * x + 1)), op[1:])(cls, label=str(x))
@@ -205,4 +227,5 @@ def run_closed(e, tmp, probe=True, target=PROBE):
         values2 = refinterp.run(flow.compile(composition.apply, assets2))
         apply = find(values2, target)
     raw = [v for ins, v in values.items() if isinstance(ins, flow.Functor) and _root(v) == str(target) and _tag(v) == 'app']
-    return train, apply, {'persistent': len(persistent), 'commits': len(gen.commits), 'train_symbols': len(symbols), 'raw_train': raw}
+    return train, apply, {'persistent': len(persistent), 'commits': len(gen.commits), 'train_symbols': len(symbols), 'raw_train': raw,
+                          'raw_states': states}
